@@ -32,13 +32,13 @@ ASSUMPTIONS = [
 ]
 MINIMA = {"quick": {"members_extracted": 2500, "gzip_cases": 40, "longname_members": 60, "inline_std_members": 150, "far_offset_members": 10, "multi_member_gzip_cases": 10,
                     "old_style_or_contiguous_type_members": 100},
-          "thorough": {"members_extracted": 30000}}
+          "thorough": {"members_extracted": 250000}}
 MECH = "vmtar"
 DATA = os.path.join(os.environ.get("VF_REPO", "/repo"), "tests", "data")
 
 
 def plan(tier: str, seed: int) -> list[dict]:
-    n = 500 if tier == "quick" else 6000
+    n = 500 if tier == "quick" else 40000
     cases = [{"k": "visor", "i": i} for i in range(n)]
     cases += [{"k": "far", "i": i, "weight": 3} for i in range(40 if tier == "quick" else 300)]
     cases += [{"k": "stdlib", "i": i} for i in range(30 if tier == "quick" else 500)]
